@@ -1249,7 +1249,9 @@ fn copy_prop_reverse(
     {
         let mut changed = true;
         let mut cycle_detected = false;
-        while changed {
+        // Stop as soon as a cycle is seen: with a cycle of three or more symbols every
+        // round keeps rewriting the map, so `changed` alone never becomes false.
+        while changed && !cycle_detected {
             changed = false;
             src_to_dst.clone().iter().for_each(|(src, dst)| {
                 if let Some(next_dst) = src_to_dst.get(dst) {
